@@ -117,6 +117,21 @@ def build():
     if not (w.end_lineno < rn.lineno):
         raise TieBroken("set_cache: rename is not after the with block (file closed before rename)")
 
+    # --- MCP_CACHE_PATH = os.path.join(CACHE_DIR, "mcp.cache"); its tmp name in get_mcp_servers
+    mp = module_assign(sl, "MCP_CACHE_PATH")
+    if not (isinstance(mp, ast.Call) and ast.unparse(mp.func) == "os.path.join" and len(mp.args) == 2
+            and isinstance(mp.args[0], ast.Name) and mp.args[0].id == "CACHE_DIR"):
+        raise TieBroken("MCP_CACHE_PATH: not os.path.join(CACHE_DIR, <name>)")
+    out.append(_str("SL_MCP_CACHE_NAME", _const(mp.args[1], str, "MCP_CACHE_PATH name"), "file name of the MCP server-list cache"))
+    gms = func(sl, "get_mcp_servers")
+    mt = [n.value for n in ast.walk(gms) if isinstance(n, ast.Assign) and isinstance(n.value, ast.JoinedStr)
+          and any(isinstance(t, ast.Name) and t.id == "tmp" for t in n.targets)]
+    mj = _one(mt, "get_mcp_servers: tmp f-string").values
+    if not (len(mj) == 3 and isinstance(mj[0], ast.FormattedValue) and ast.unparse(mj[0].value) == "MCP_CACHE_PATH"
+            and isinstance(mj[1], ast.Constant) and isinstance(mj[2], ast.FormattedValue) and ast.unparse(mj[2].value) == "os.getpid()"):
+        raise TieBroken("get_mcp_servers: tmp is not f\"{MCP_CACHE_PATH}<infix>{os.getpid()}\"")
+    out.append(_str("SL_MCP_TMP_INFIX", _const(mj[1], str, "get_mcp_servers: infix"), "get_mcp_servers: between MCP_CACHE_PATH and the pid"))
+
     # --- comparison operators against the TTLs
     gc = func(sl, "get_cached")
     op1 = _cmp_with(gc, "CACHE_TTL", "get_cached: comparison with CACHE_TTL")
